@@ -243,3 +243,14 @@ Theorem C14_api_removed_generation_fails :
   forall s g seed lv fam, exists e, sel_select (remove_generation s g) seed g lv fam = Err e.
 Proof. exact api_removed_generation_fails. Qed.
 Print Assumptions C14_api_removed_generation_fails.
+
+(* the ruled-out reload, in general: copying the reloaded generations into the held selector keeps every
+   generation the new file dropped -- a selection for it is answered from the OLD file's subnets, where the code
+   (and the property) say "generation number not recognized" *)
+Theorem C14_merge_reload_refuted :
+  forall f0 f1 g c seed lv fam,
+    wellkeyed f0 -> wellkeyed f1 -> file_lookup f0 g = Some c -> file_lookup f1 g = None ->
+    nth_error (fst (merge_run (from_file f0) [EReload (Some f1); ESelect seed g lv fam])) 1 = Some (Some (select seed (Some c) lv fam)) /\
+    nth_error (fst (station_run (from_file f0) [EReload (Some f1); ESelect seed g lv fam])) 1 = Some (Some (Err EGeneration)).
+Proof. exact merge_reload_refuted. Qed.
+Print Assumptions C14_merge_reload_refuted.
